@@ -94,10 +94,14 @@ def run_search(structure, pattern, atol, hints=(None, None, None), seed=0, sched
         if len(ppos) == 1:
             clear = True
         else:
-            _, _, _, mx, _ = G.kabsch(ppos, x)
+            _, _, rms_, mx, _ = G.kabsch(ppos, x)
             # clear = well inside the tolerance for the optimal fit AND for the documented anchored fit with the
             # auto-chosen axis/orientation atoms (what the code does when no hints are given)
             clear = mx <= CLEAR * atol and G.anchored_residual(ppos, x, (None, None, None)) <= 0.5 * atol
+            # a reported group that is nowhere near the pattern (no proper rigid motion fits better than 3*sqrt(3)*atol RMS) is
+            # not a borderline case either: whether it is reported must not depend on the representation
+            if rms_ > 3 * np.sqrt(3) * atol:
+                clear = True
         if key in out:
             dups += 1
         FOUND_AS[key] = (np.array(ppos, float), np.array(x, float))
